@@ -501,8 +501,24 @@ def build_item(d, canary=False, repo=REPO):
     for anchor, txt in d["before"]:
         if anchor.startswith("?"):
             anchor = anchor[1:]
-            if body.count(anchor) == 0:
+            if body.count(anchor.lstrip("*")) == 0:
                 continue
+        if anchor.startswith("*"):
+            # `*text`: EVERY occurrence (at least one) gets the hint - a second site of the same statement that a change adds is
+            # held to the same assertion instead of losing the anchor
+            anchor = anchor[1:]
+            if body.count(anchor) == 0:
+                raise AssembleError("anchor lost in %s: %r occurs 0 times" % (where, anchor))
+            ps, q = [], -1
+            while True:
+                q = body.find(anchor, q + 1)
+                if q < 0:
+                    break
+                ps.append(q)
+            for q in reversed(ps):
+                ls = body.rfind("\n", 0, q) + 1
+                body = body[:ls] + txt.rstrip() + "\n" + body[ls:]
+            continue
         # `text##k`: the k-th of exactly N occurrences (`text##k/N`); plain text: the only occurrence
         mo = re.match(r"(?s)(.*)##(\d+)/(\d+)$", anchor)
         if mo:
